@@ -38,7 +38,7 @@ LEVEL_TEXT = (
     "one process is executed; every run must return what a plain key->value map would (stored value for stored keys, "
     "fresh value otherwise) and compute exactly the missing keys."
 )
-LEVEL_NOTE = "fault model: process kill (everything handed to the OS persists, nothing after the kill happens); power-loss reordering of unsynced writes is out of scope; trusted: the shim's interception of io.open/os.* (validated against real SIGKILL runs)"
+LEVEL_NOTE = "fault model: process kill (everything handed to the OS persists, nothing after the kill happens); power-loss reordering of unsynced writes is out of scope; trusted: the shim's interception of io.open/os.* and its model of Python-level write buffering (validated against real SIGKILL runs)"
 RULE = (
     "case = (key set, result kind, crash plan) or (key-state product, parallel rerun) or (real-kill plan) or (result "
     "kind, operation history); all plans "
